@@ -51,14 +51,29 @@ def parse_direct(hexdgram: str) -> str:
 # running bridge
 
 
+_NEXT_PORT = [0]
+
+
 def free_udp_ports(n: int) -> List[int]:
-    socks, ports = [], []
-    for _ in range(n):
+    """n UDP ports nobody holds.  Taken from a block that belongs to this process (below the kernel's ephemeral range, away from the
+    protocol's well-known ports), so that checks running side by side do not hand each other's ports out and so that no client
+    socket of anybody lands on them by chance."""
+    import os
+    lo, hi = 11000, 19000
+    block = 40
+    base = lo + (os.getpid() * 7919 % ((hi - lo) // block)) * block
+    ports: List[int] = []
+    tries = 0
+    while len(ports) < n and tries < 4 * block:
+        p = base + _NEXT_PORT[0] % block
+        _NEXT_PORT[0] += 1
+        tries += 1
+        if p not in ports and bindable(p):
+            ports.append(p)
+    while len(ports) < n:           # the block is exhausted or taken: fall back to what the kernel hands out
         s = socket.socket(socket.AF_INET, socket.SOCK_DGRAM)
         s.bind(("0.0.0.0", 0))
-        socks.append(s)
         ports.append(s.getsockname()[1])
-    for s in socks:
         s.close()
     return ports
 
@@ -78,16 +93,21 @@ SENTINEL_NAME = "zz-sentinel"
 LOST = 0          # barriers lost so far in this process: after a few, later sequences are not attempted
 
 
+# a broadcast of a real power plug, as captured from a device (tests/testresources/test_udp_datagram_parsing/
+# test_datagram_state_on_power_plug.txt of the pinned commit): header with its own length, type, ip, mac, state, power - everything a
+# genuine broadcast has, so that the barrier does not depend on which of these a (changed) parser looks at
+_GENUINE = bytes.fromhex(
+    "fef0a500023c020000000000841201000000aaaaaa0000007ff6c26000000000000000000000f0fe03004d7920537769746368657220426f696c6572000000"
+    "000000000000000000000001a8c0a8012112a1a21abc1a000000000000000002537769746368657220426f696c6572204346384200000000000000000000000002"
+    "0400001c000100280a00004b9589c0000000000000000000000000000000000102aa3461dd")
+
+
 def sentinel_datagram(k: int) -> bytes:
-    """a valid power-plug broadcast whose name marks it as the delivery barrier number k"""
-    b = bytearray(165)
-    b[0:2] = b"\xfe\xf0"
-    b[18:21] = b"\xaa\xbb\xcc"
-    b[40] = 0
+    """a genuine power-plug broadcast whose name marks it as the delivery barrier number k"""
+    b = bytearray(_GENUINE)
+    assert len(b) == 165
     nm = f"{SENTINEL_NAME}{k}".encode()
-    b[42:42 + len(nm)] = nm
-    b[74:76] = bytes.fromhex("01a8")
-    b[76:80] = bytes([1, 0, 0, 127])
+    b[42:74] = nm.ljust(32, b"\x00")
     return bytes(b)
 
 
